@@ -2,13 +2,14 @@
 use crate::langs::*;
 use crate::rng::Rng;
 use crate::suites::eg::*;
+use crate::suites::rw::*;
 use crate::terms::*;
 use crate::util::*;
 use crate::{Case, Ctx};
 use slotted_egraphs::*;
 
 /// final observables of a history, reported in the order of `order` (original term index of each tracked position)
-fn run_final(ops: &[Op], orig_index: &[usize], rho_back: Option<Vec<(u32, u32)>>) -> Result<String, String> {
+fn run_final(ops: &[Op], orig_index: &[usize], rho_back: Option<Vec<(u32, u32)>>, rewrite: usize) -> Result<String, String> {
     let mut eg: EGraph<Main> = EGraph::default();
     let mut tracked: Vec<AppliedId> = Vec::new();
     for (k, op) in ops.iter().enumerate() {
@@ -27,6 +28,19 @@ fn run_final(ops: &[Op], orig_index: &[usize], rho_back: Option<Vec<(u32, u32)>>
                 }
             }
             Op::Query => {}
+        }
+    }
+    // optionally a few rewrite iterations with slot-name-independent rules (the same in every run that is compared)
+    if rewrite > 0 {
+        let names: [&[&str]; 3] = [&["add-comm", "mul-comm", "add-assoc"], &["k-def", "h-def"], &["sum-swap", "add-comm", "k-def"]];
+        let rws: Vec<Rewrite<Main>> = names[(rewrite - 1) % 3].iter().filter_map(|n| POOL.iter().find(|r| r.0 == *n)).map(|r| mk_rule(r)).collect();
+        for _ in 0..2 {
+            if eg.total_number_of_nodes() > 120 {
+                break;
+            }
+            if let Err(e) = guarded(|| apply_rewrites(&mut eg, &rws)) {
+                return Err(format!("rewrite {e}"));
+            }
         }
     }
     // reorder tracked handles into the original term order
@@ -133,7 +147,7 @@ fn order_case(rng: &mut Rng, nvariants: usize) -> Case {
     let vs = variants.clone();
     let r = in_fresh_thread(move || {
         intern_names();
-        vs.iter().map(|(ops, idx)| run_final(ops, idx, None)).collect::<Vec<_>>()
+        vs.iter().map(|(ops, idx)| run_final(ops, idx, None, 0)).collect::<Vec<_>>()
     });
     let mut tags = vec![format!("s:{stream}")];
     match r {
@@ -285,11 +299,16 @@ fn rename_case(rng: &mut Rng) -> Case {
         runs.push((renamings[k].0.to_string(), rename_ops(&ops, &rho), Some(back)));
     }
     let rs = runs.clone();
+    // a third of the cases continue with two rewrite iterations (arithmetic start terms make the rules fire)
+    let rewrite = if rng.chance(1, 3) { 1 + rng.below(3) } else { 0 };
     let r = in_fresh_thread(move || {
         intern_names();
-        rs.iter().map(|(_, ops, back)| run_final(ops, &idx, back.clone())).collect::<Vec<_>>()
+        rs.iter().map(|(_, ops, back)| run_final(ops, &idx, back.clone(), rewrite)).collect::<Vec<_>>()
     });
     let mut tags = vec![format!("s:{stream}")];
+    if rewrite > 0 {
+        tags.push("t:rewrite-iterations".into());
+    }
     match r {
         Ok(outs) => {
             let first = outs[0].clone();
@@ -306,7 +325,8 @@ fn rename_case(rng: &mut Rng) -> Case {
                 Ok(s) => s.split("|inv:").next().unwrap().to_string(),
                 Err(e) => format!("PANIC {e}"),
             };
-            Case { line, impl_out: format!("{impl_out}{extra}"), nontrivial: order_changed, tags }
+            let marker = if rewrite > 0 { " ##rewrite-iterations" } else { "" };
+            Case { line, impl_out: format!("{impl_out}{marker}{extra}"), nontrivial: order_changed, tags }
         }
         Err(e) => Case { line, impl_out: format!("PANIC {e}"), nontrivial: true, tags: vec!["panic".into()] },
     }
